@@ -26,6 +26,19 @@
 (* structure; EvalEffect = "inplace_mid" models an in-place z += dz/2 on   *)
 (* the exposed altitude array.  The three defect values occur in           *)
 (* expected-counterexample configs only.                                   *)
+(*                                                                         *)
+(* Third round.  The model is assembled from components of ANY built-in    *)
+(* type and hands them its own arrays: `lay` is the very array the         *)
+(* temperature component reads whenever its profile is evaluated (in Step, *)
+(* in Evaluate and in Read), T the very array the chemistry reads.  Read:  *)
+(* a second look at the exposed profiles -- a stuttering step of the       *)
+(* as-built system (ReadsAreRepeatable).  ShareEffect models a component   *)
+(* that WRITES into what it is handed ("temperature_scales_pressure": every *)
+(* evaluation of the temperature profile scales the handed layer pressures *)
+(* in place; "read_scales_temperature": a read of the composition scales   *)
+(* the handed temperatures); expected-counterexample configs only.  The    *)
+(* exported vectors list the temperature component kinds that can be told  *)
+(* the vector's T (TempComponentKinds): binding A builds each in turn.     *)
 (***************************************************************************)
 EXTENDS Atmosphere
 CONSTANTS NMax,          \* layers 1..NMax
@@ -38,6 +51,8 @@ CONSTANTS NMax,          \* layers 1..NMax
           UnitAt,        \* "return" | "loop": where the length-unit conversion is applied
           ULoop,         \* the unit factor of the "loop" variant (1 otherwise)
           EvalEffect,    \* "readonly" | "inplace_mid": what evaluating the model does to the structure
+          ShareEffect,   \* "readonly" | "temperature_scales_pressure" | "read_scales_temperature": what a
+                         \* component does to the arrays the model shares with it
           RADS, GMS,     \* planet radius / GM (units)
           Slicing,       \* "layer" | "droplast"
           Export
@@ -107,6 +122,14 @@ Chemistry == /\ phase = "chem"
 
 Lr(k) == Q(lev[k] - lev[k + 1])        \* ln(P_k / P_{k+1}) in units of ln 10
 
+\* The layer-pressure array after the temperature component (which holds a reference to it, not a
+\* copy) has evaluated its profile once; the temperature array after the composition was read once.
+\* As built, components only read: both are the identity.
+PressureAfterTempEval(l) == IF ShareEffect = "temperature_scales_pressure"
+                            THEN [k \in 1..Len(l) |-> l[k] - 1] ELSE l          \* every entry times 1/10
+TempAfterChemRead(t) == IF ShareEffect = "read_scales_temperature"
+                        THEN [k \in 1..Len(t) |-> 2 * t[k]] ELSE t
+
 \* layer i+1 (1-based k): gravity and scale height at the bottom of the layer
 Step == /\ phase = "hydro" /\ i < n
         /\ LET k  == i + 1
@@ -120,7 +143,8 @@ Step == /\ phase = "hydro" /\ i < n
                /\ H' = Append(H, Hk)
                /\ z' = Append(z, XAdd(z[k], dz))
         /\ i' = i + 1
-        /\ UNCHANGED <<phase, n, lev, lay, T, tab, mix, mu, rad, gm, prof>>
+        /\ lay' = PressureAfterTempEval(lay)      \* H needs T[k]: the temperature component is evaluated
+        /\ UNCHANGED <<phase, n, lev, T, tab, mix, mu, rad, gm, prof>>
 
 \* what is exposed: altitude of the layer bottoms, one g and H per layer
 Profiles == /\ phase = "hydro" /\ i = n
@@ -139,9 +163,18 @@ Evaluate == /\ phase = "done"
                     THEN [k \in 1..Len(z) |-> IF k <= n THEN XAdd(z[k], XMul(XSub(z[k + 1], z[k]), <<1, 2>>)) ELSE z[k]]
                     ELSE z
             /\ phase' = "evaluated"
-            /\ UNCHANGED <<n, lev, lay, T, tab, mix, mu, rad, gm, i, g, H, prof>>
+            /\ lay' = PressureAfterTempEval(lay)
+            /\ UNCHANGED <<n, lev, T, tab, mix, mu, rad, gm, i, g, H, prof>>
 
-Next == Levels \/ Chemistry \/ Step \/ Profiles \/ Evaluate
+\* a (second, third, ...) look at the exposed profiles of a built or evaluated model: the temperature
+\* component evaluates its profile, the composition is read
+Read == /\ phase \in {"done", "evaluated"}
+        /\ ~Export                               \* (export runs print every done state once)
+        /\ lay' = PressureAfterTempEval(lay)
+        /\ T' = TempAfterChemRead(T)
+        /\ UNCHANGED <<phase, n, lev, tab, mix, mu, rad, gm, i, z, g, H, prof>>
+
+Next == Levels \/ Chemistry \/ Step \/ Profiles \/ Evaluate \/ Read
 Spec == Init /\ [][Next]_vars
 
 Built == phase # "levels"
@@ -208,6 +241,10 @@ MixAlignedWithLayers ==
 DensityIdealGas ==
     Built => \A k \in 1..n : DensityRel(XMul, REqual, Rho(k), P10r(lay[k]), Q(T[k]), kB) /\ XLt(Q(0), Rho(k))
 OneEntryPerLayer == Done => OneEntryPerLayerRec(n, prof, LayerProfiles)
+\* two consecutive reads of every exposed array are identical: a step that leaves the phase of a built
+\* model alone (a Read) changes nothing that is exposed
+Exposed == <<lev, lay, T, mix, mu, z, g, H, prof>>
+ReadsAreRepeatable == [][(Done /\ phase' = phase) => UNCHANGED Exposed]_vars
 FitsInv == /\ \A k \in 1..Len(z) : Fits(z[k])
            /\ \A k \in 1..Len(g) : Fits(g[k]) /\ Fits(H[k])
 
@@ -215,6 +252,7 @@ Emit == (Export /\ phase = "done") =>
     PrintT(<<"VEC", ToJson([n |-> n, lev |-> lev, lay |-> lay, T |-> T, mu |-> mu, tab |-> tab, mix |-> mix,
                             den |-> ChemDen, w |-> GasW, rad |-> rad, gm |-> gm,
                             z |-> z, g |-> g, H |-> H, rho |-> [k \in 1..n |-> Rho(k)], prof |-> prof,
+                            tkinds |-> TempComponentKinds(T),
                             inputs |-> [j \in 1..Len(OptionSeq) |->
                                           [orient |-> OptionSeq[j].orient, reverse |-> OptionSeq[j].reverse,
                                            array |-> ArrayInput(lay, OptionSeq[j].orient)]]])>>)
